@@ -205,6 +205,93 @@ def stream_findall(ctx, drv, rng, builtin, flag_pattern, values, n_random, n_shi
                 ctx.corr_break("c12.findall", {"stream": "regex", "pattern": p, "value": v}, py, m)
 
 
+def py_at(p, v):
+    """the match CPython prefers at every position of `v` (`pattern.match(v, j)`): [length, [groups]] or None"""
+    with warnings.catch_warnings():
+        warnings.simplefilter("ignore")
+        try:
+            rx = re.compile(p)
+        except re.error as e:
+            return {"error": str(e)}
+    out = []
+    for j in range(len(v) + 1):
+        m = rx.match(v, j)
+        out.append(None if m is None else [m.end() - j, [m.group(i + 1) or "" for i in range(rx.groups)]])
+    return {"ok": out, "groups": rx.groups}
+
+
+def gen_arch_list(rng, lo=1, hi=12):
+    """the shape of `nvArchs_comma_list` / `nvcc_passes_comma_list`: a comma-joined list of sm_<digits> / compute_<digits>;
+    returns (value, digit strings)"""
+    ds = [rng.choice(["70", "75", "80", "89", "90", "60", "100", "0", "075", "8", "9000", "86"]) for _ in range(rng.randint(lo, hi))]
+    return ",".join(rng.choice(["sm_", "sm_", "compute_"]) + d for d in ds), ds
+
+
+def stream_spec(ctx, drv, rng, builtin, flag_pattern, values, n_random, n_shipped):
+    """the priority SPECIFICATION (Spec/RegexPrio.lean: `allMatches` listed without back-tracking, `firstMatch`, `specFindall`)
+    against CPython: the preferred match (length and groups) at every position of the value, and `findall`.
+    Props/C12RegexComplete.lean proves the matcher equal to this specification on every parsed pattern; this stream ties
+    the specification itself to `re`.  Also measures the share of generated patterns inside the fragment of the theorems."""
+    cases = []
+    for p in shipped_patterns(builtin, flag_pattern):
+        for _ in range(n_shipped):
+            cases.append((p, gen_option_value(rng, values)[:24], "shipped"))
+        for _ in range(max(2, n_shipped // 4)):
+            cases.append((p, gen_arch_list(rng, 1, 5)[0], "shipped"))
+    for _ in range(n_random):
+        p = gen_pattern(rng)
+        for _ in range(2):
+            v = gen_value(rng, p)
+            # the specification lists ALL matches (no pruning): keep ambiguous repetitions short
+            cases.append((p, v[:8] if re.search(r"\)[*+]", p) else v[:16], "random"))
+    for _ in range(max(10, n_random // 10)):  # metacharacter-free patterns: the shape of `parse_literal` / `findall_literal`
+        p = "".join(rng.choice("absm_019-,=: x") for _ in range(rng.randint(1, 4)))
+        cases.append((p, gen_value(rng, p), "literal"))
+    st = ctx.extra.setdefault("regex_spec", {"cases": 0, "compared": 0, "positions_compared": 0, "positions_with_match": 0,
+                                             "findall_with_matches": 0, "patterns_generated": 0, "patterns_parsed": 0,
+                                             "patterns_in_fragment": 0, "patterns_literal": 0, "fragment_share_of_generated": None,
+                                             "fragment_share_of_parsed": None})
+    seen = {}
+    for k in range(0, len(cases), 300):
+        chunk = cases[k:k + 300]
+        rep = drv.ask({"op": "re_spec", "cases": [[p, v] for p, v, _ in chunk]})["results"]
+        for (p, v, kind), m in zip(chunk, rep):
+            st["cases"] += 1
+            ctx.count(key=f"regex_spec:{kind}")
+            if "unsupported" in m:
+                seen.setdefault(p, (False, False, False))
+                continue
+            seen[p] = (True, bool(m["fragment"]), bool(m["literal"]))
+            if not m["fragment"]:
+                # `parse_in_fragment` is a theorem: the driver contradicting it means the build is inconsistent
+                ctx.corr_break("c12.regex_fragment_theorem", {"stream": "regex_spec", "pattern": p, "value": v}, "parsed => inFragment", m)
+            if kind == "literal" and not m["literal"]:
+                ctx.corr_break("c12.regex_literal", {"stream": "regex_spec", "pattern": p, "value": v}, "metacharacter-free", m)
+            py = py_at(p, v)
+            fa = py_findall(p, v)
+            if "ok" not in py or "ok" not in fa:
+                ctx.corr_break("c12.regex_spec", {"stream": "regex_spec", "pattern": p, "value": v}, py, m)
+                continue
+            st["compared"] += 1
+            st["positions_compared"] += len(py["ok"])
+            st["positions_with_match"] += sum(1 for x in py["ok"] if x is not None)
+            if fa["ok"]:
+                st["findall_with_matches"] += 1
+                ctx.nontrivial.add("respec:" + p + "\0" + v)
+            if py["groups"] != m["groups"] or py["ok"] != m["at"]:
+                ctx.corr_break("c12.regex_spec_first_match", {"stream": "regex_spec", "pattern": p, "value": v}, py, {"groups": m["groups"], "at": m["at"]})
+            elif fa["ok"] != m["findall"]:
+                ctx.corr_break("c12.regex_spec_findall", {"stream": "regex_spec", "pattern": p, "value": v}, fa, m["findall"])
+    st["patterns_generated"] += len(seen)
+    st["patterns_parsed"] += sum(1 for x in seen.values() if x[0])
+    st["patterns_in_fragment"] += sum(1 for x in seen.values() if x[0] and x[1])
+    st["patterns_literal"] += sum(1 for x in seen.values() if x[0] and x[2])
+    if st["patterns_generated"]:
+        st["fragment_share_of_generated"] = round(st["patterns_in_fragment"] / st["patterns_generated"], 4)
+    if st["patterns_parsed"]:
+        st["fragment_share_of_parsed"] = round(st["patterns_in_fragment"] / st["patterns_parsed"], 4)
+
+
 TEMPLATES = [None, "", "$value", "sm_$value", "sycl-$value", "${value}", "${value}_s", "p-$value", "$$", "$$$value", "$$value", "a$$b${value}c$value",
              "$value$value", "$valuex", "${value}x", "$value-x", "$value.x", "$other", "${other}", "$", "a$", "${value", "${}", "$1", "${1a}",
              "$ value", "$Value", "$_value", "${value }", "$value$", "$$$", "plain", "$VALUE", "${value}${other}", "$other$", "$-", "x${value}$$y"]
